@@ -88,4 +88,9 @@ CLAIMED['C08'] = {
     'text': 'For every signal, noise level and every job-to-worker assignment (sizes enumerated) the members are proved to use pairwise different positions of the random stream, the result to be the per-IMF mean over members (each the mean of the two signed decompositions in flip mode) and the zero-noise ensemble to equal the classic sift with the same cap. A counter-assignment found by the solver is replayed on the real pool.',
     'note': PROOF_NOTE + 'fork-Pool contract and injectivity of the random stream are assumptions; sift is a function of its input (modular).',
 }
+CLAIMED['C15'] = {
+    'technique': 'deductive (class-invariant steps): get_matching_cycles (conjunction of comparators over the stored metrics, all six operators), add/_safe_add_metric (length guard), pick_cycle_subset (subset and chain vectors built from exactly the matching cycles) on an arbitrary container satisfying the invariant, plus the constructor contracts of C16 and the per-cycle statistic of C14; VCs from the real source discharged by z3; bounded stand-in: exhaustive condition parsing, 40/400 random operation histories with cache on and off against a reference model',
+    'text': 'Each public operation is proved, from the class invariant alone, to keep one entry per cycle in every stored metric and to compute exactly the documented selection / subset / chain structure; the statement for arbitrary histories follows by induction on the history. Condition-string parsing, slice-cache equivalence, chain metrics and tabular exports are decided by the bounded stand-in only and reported as not covered by the proof.',
+    'note': PROOF_NOTE + '_parse_condition by contract in the unbounded units; pandas and the slice cache bounded.',
+}
 PENDING_REASON = {}
